@@ -432,6 +432,54 @@ def r_own_resolve(e, R):
     R.floor("R-OWN-RESOLVE", 4)
 
 
+def r_cancel_safe(e, R):
+    """Resolving a future that was never dispatched can hit a CANCELLED one:
+    Future.set_exception / set_result then raise InvalidStateError.  An item
+    obtained by popitem() / iteration is an arbitrary pending item (possibly
+    still queued, hence cancellable); such a resolution must be enclosed by a
+    handler of InvalidStateError.  Items popped under the id carried by a
+    result / call item were dispatched (RUNNING: not cancellable)."""
+    a = e.anchors
+    res = resolve_pred(e)
+    n = 0
+    for f, c in e.all_calls():
+        if not res(f, c):
+            continue
+        recv = c.func.value if isinstance(c.func, ast.Attribute) else None
+        if not (isinstance(recv, ast.Attribute) and recv.attr == a.future_attr and e.objs(f, recv.value) & a.workitem_objs):
+            continue
+        n += 1
+        origins = _origin(e, f, recv.value)
+        arbitrary = False
+        for kind, node in origins:
+            if kind == "removed" and isinstance(node, ast.Call) and isinstance(node.func, ast.Attribute):
+                if node.func.attr == "popitem":
+                    arbitrary = True
+                elif node.func.attr == "pop":
+                    key = node.args[0] if node.args else None
+                    dispatched = isinstance(key, ast.Attribute) and isinstance(key.value, ast.Name) and key.value.id in f.params
+                    if not dispatched:
+                        arbitrary = True
+            else:
+                arbitrary = True
+        if not arbitrary:
+            R.ok("R-CANCEL-SAFE", f"{f.short}: {norm(c)[:60]} resolves a dispatched (RUNNING, not cancellable) item", e.loc(f, c))
+            continue
+        g = e.cfg(f)
+        ok = True
+        for cn in cfg_nodes(e, f, c):
+            hs = [m for m, l in cn.succ if l == "exc" and m.kind == "except"]
+            if not any(h.ast.type is None or any(t in norm(h.ast.type) for t in ("InvalidStateError", "Exception", "BaseException")) for h in hs):
+                ok = False
+        R.check(ok, "R-CANCEL-SAFE", f"{f.short}: {norm(c)[:50]} on an arbitrary pending item tolerates a cancelled future", f.short, norm(c)[:80],
+                "a future taken from the whole pending table (possibly still queued, so cancel() may have succeeded) is resolved without "
+                "handling InvalidStateError: on a cancelled future set_exception raises, the manager thread dies in the middle of failing "
+                "everything, the remaining futures stay pending and the workers are neither killed nor reaped", e.loc(f, c))
+    R.trust("Future.set_result/set_exception raise InvalidStateError on a CANCELLED or FINISHED future (re-checked against the stdlib source in the thorough tier)")
+    if n < 4:
+        raise AnalysisError(f"R-CANCEL-SAFE: {n} resolution sites found (floor 4)")
+
+
 def r_drop_resolves(e, R):
     a = e.anchors
     res = resolve_pred(e)
